@@ -25,6 +25,32 @@ Fixpoint strs_eqb (a b : list str) : bool :=
   | _, _ => false
   end.
 
+(* ---- stacked middlewares: (7 (layout ...) extra (request ...) (panicked ((child ...) ...)))
+   layout = (code? method? (ctxname ...)), request = (method status ((name value) ...)), child = (((name value) ...) count) *)
+Definition d_pair (s : sx) : option (str * str) :=
+  match s with SL [a; b] => match dStr a, dStr b with Some a, Some b => Some (a, b) | _, _ => None end | _ => None end.
+Definition d_layout (s : sx) : option layout :=
+  match s with
+  | SL [c; m; ns] => match dB c, dB m, dL dStr ns with Some c, Some m, Some ns => Some (mkLay c m ns) | _, _, _ => None end
+  | _ => None
+  end.
+Definition d_request (s : sx) : option request :=
+  match s with
+  | SL [m; SZ st; ctx] => match dStr m, dL d_pair ctx with Some m, Some ctx => Some (mkReq m st ctx) | _, _ => None end
+  | _ => None
+  end.
+Definition d_child (s : sx) : option (list (str * str) * Z) :=
+  match s with SL [ls; SZ n] => option_map (fun ls => (ls, n)) (dL d_pair ls) | _ => None end.
+Definition pair_eqb (a b : str * str) : bool := str_eqb (fst a) (fst b) && str_eqb (snd a) (snd b).
+(* label tuples compared as sets (the exposition sorts label pairs by name; names are distinct within a layout) *)
+Definition labels_set_eqb (a b : list (str * str)) : bool :=
+  Nat.eqb (List.length a) (List.length b) && forallb (fun p => existsb (pair_eqb p) b) a.
+(* the specification's label tuple: code_spec / method_spec instead of the transcribed sanitisers *)
+Definition req_labels_spec (lay : layout) (extra : list str) (q : request) : list (str * str) :=
+  (if l_code lay then [(s_code, code_spec (r_status q))] else []) ++
+  (if l_method lay then [(s_method, method_spec (r_method q) extra)] else []) ++
+  map (fun n => (n, ctx_value (r_ctx q) n)) (l_ctx lay).
+
 Definition check (s : sx) : Z :=
   match s with
   | SL [SZ 0; SZ c; impl] =>
@@ -76,6 +102,23 @@ Definition check (s : sx) : Z :=
       | Some free, Some ipanicked =>
           both (Bool.eqb ipanicked (match check_labels free with None => true | Some _ => false end)) true
       | _, _ => code_decode_error
+      end
+  | SL [SZ 7; lays; extra; reqs; SL [ipanicked; impl]] =>
+      match dL d_layout lays, dL dStr extra, dL d_request reqs, dB ipanicked, dL (dL d_child) impl with
+      | Some lays, Some extra, Some reqs, Some ipanicked, Some impl =>
+          let model := stack_children lays extra reqs in
+          both (negb ipanicked &&
+                Nat.eqb (List.length impl) (List.length lays) &&
+                forallb (fun lc => let '(lay, cs) := lc in
+                   Z.eqb (fold_right Z.add 0 (map snd cs)) (Z.of_nat (List.length reqs)) &&
+                   forallb (fun q => existsb (fun c => labels_set_eqb (fst c) (req_labels_spec lay extra q)) cs) reqs)
+                  (combine lays impl))
+               (Nat.eqb (List.length impl) (List.length model) &&
+                forallb (fun mc => let '(m, cs) := mc in
+                   Nat.eqb (List.length m) (List.length cs) &&
+                   forallb (fun c => existsb (fun k => labels_set_eqb (fst c) (fst k) && Z.eqb (snd c) (snd k)) m) cs)
+                  (combine model impl))
+      | _, _, _, _, _ => code_decode_error
       end
   | _ => code_decode_error
   end.
